@@ -263,10 +263,22 @@ func runPhase(ph phase, secs int, scratch string) ([]*stats, map[uint64]uint64) 
 		}(w)
 	}
 	wg.Wait()
-	for _, e := range errs {
-		if e != "" {
+	anyViolation := false
+	for _, st := range out {
+		anyViolation = anyViolation || (st != nil && st.Violation != nil)
+	}
+	for w, e := range errs {
+		if e == "" {
+			continue
+		}
+		if !anyViolation {
 			trouble("%s", e)
 		}
+		// a violation found by another worker is confirmed and replayed in a
+		// fresh process anyway; a worker that died next to it is reported
+		// but does not mask it
+		fmt.Printf("note: %s\n", firstN(e, 600))
+		out[w] = &stats{Probes: map[string]int{}, Faults: map[string]int{}}
 	}
 	hashes := map[uint64]uint64{}
 	for w := 0; w < ph.Workers; w++ {
